@@ -601,6 +601,45 @@ def check_composite(run, case):
                         got[1], bad[:3]), input_class='composite:' + how)
 
 
+# results that are sets: a set when sets are kept, a list of the same members
+# when they are converted
+SET_TEXTS = {
+    '[1, 2, 2].toSet()': {1, 2},
+    'set(1, 2)': {1, 2},
+    '$d.keys().toSet()': {'k', 2},
+    'dict(a => 1, b => 2).keys().toSet()': {'a', 'b'},
+    '[1, 2].toDict($, $ * 2).keys().toSet()': {1, 2},
+    '$d.items().select($[0]).toSet()': {'k', 2},
+    '$d.keys().toSet().union(set(9))': {'k', 2, 9},
+    'set(1).union($d.keys().toSet())': {'k', 2, 1},
+    '$s.toSet()': {1, 'a'},
+    '$s.union(set(3))': {1, 'a', 3},
+    'set(1, 2).intersect([2, 3].toSet())': {2},
+    '[3, 3].toSet().toSet()': {3},
+    'set($d.keys().toSet().len())': {2},
+}
+
+
+def check_set_kind(run, case):
+    text = case['text']
+    t2l, s2l = case['opts']
+    exp = SET_TEXTS[text]
+    run.case(case, True, cls='set-results')
+    try:
+        got = _eval(text, t2l, s2l, True)
+    except Exception as e:   # noqa
+        run.violate('finalisation-raises', case, '%s raised %s: %s' % (
+            text, type(e).__name__, e), exc=e, input_class='set-result')
+        return
+    ok = (type(got) is list and len(got) == len(exp) and set(got) == exp) \
+        if s2l else (type(got) is set and got == exp)
+    if not ok:
+        run.violate('set-result-of-other-kind', case,
+                    '%s with sets->lists %s -> %r; expected %s of %r' % (
+                        text, s2l, got, 'a list' if s2l else 'a set', exp),
+                    input_class='set-result')
+
+
 _FAMILY = {}
 
 
@@ -611,7 +650,7 @@ def _family_base():
     return _FAMILY['b']
 
 
-REPLAY = {'copy-family': check_copy_family,
+REPLAY = {'copy-family': check_copy_family, 'set-kind': check_set_kind,
           'host-setup': check_host_setup, 'composite': check_composite,
           'roundtrip': check_roundtrip, 'kind': check_kind,
           'interface-fn': check_interface_fn}
@@ -706,6 +745,10 @@ def run(run):
         for o in OPTS:
             check_interface_fn(run, {'kind': 'interface-fn', 'index': i,
                                      'opts': list(o)})
+    for text in sorted(SET_TEXTS):
+        for o in OPTS:
+            check_set_kind(run, {'kind': 'set-kind', 'text': text,
+                                 'opts': list(o)})
     # the smallest documents (null, false, zero, empty) by every way
     for how in ('evaluate', 'raw-input', 'no-context', 'yaql.eval',
                 'yaql.eval-reentrant', 'create_context'):
